@@ -132,7 +132,17 @@ impl Op {
                 .is_some_and(|v| v.is_empty() || v.to_lowercase() == "true");
             let mut next_param = parameters.next(def);
             next_param.definition = macro_definition;
-            return Op::op(next_param, ctx)?.handle_inversion(inverted);
+            let mut op = Op::op(next_param, ctx)?.handle_inversion(inverted)?;
+            // Directional omission is a property of the invoking step only: it is
+            // set here, and not handed down to the body through the globals
+            let args = def.split_into_parameters();
+            for key in ["omit_fwd", "omit_inv"] {
+                let given = args.get(key);
+                if given.is_some_and(|v| v.is_empty() || v.to_lowercase() == "true") {
+                    op.params.boolean.insert(key);
+                }
+            }
+            return Ok(op);
         }
 
         // A built in operator?
